@@ -879,7 +879,7 @@ def red_canon(res):
     return ["ok", ["bs"] + list(res.batch_size), ["names", names], L.canon_kv(leaf_dict(res)), ["nested"] + [list(x) for x in nested]]
 
 
-def run_reduction_case(ctx, name, batch, names, spelling, keep):
+def run_reduction_case(ctx, name, batch, names, spelling, keep, container=None):
     run = ctx.run
     tok, con, fb, kind, accepts_keep = RED[name]
     dim_sx, dim_py = spelling
@@ -896,7 +896,7 @@ def run_reduction_case(ctx, name, batch, names, spelling, keep):
     if name in ("cummin", "cummax") and "dim" not in kw:
         return
     case = {"op": name, "batch": list(batch), "names": names, "dim": str(kw.get("dim", "absent")), "keepdim": str(keep)}
-    run.case(("reduction", name, tuple(batch), str(names), str(dim_sx), str(keep)), nontrivial=dim_py is not None)
+    run.case(("reduction" if container is None else "reduction_containers", name, tuple(batch), str(names), str(dim_sx), str(keep)), nontrivial=dim_py is not None)
     run.count("reduction.dim", dim_sx if isinstance(dim_sx, str) else dim_sx[0])
     run.count("reduction.keepdim", str(keep))
     run.count("reduction.op", name)
@@ -933,7 +933,16 @@ def run_reduction_case(ctx, name, batch, names, spelling, keep):
         except Exception as e:  # noqa: BLE001  torch rejects the call the model (and the code) makes on a leaf
             model = ["err", err_class(e)]
     # ---- implementation
+    site = "reduction" if container is None else "reduction_containers"
+    if container is not None:
+        td = wrap_container(container, td)
+        case["container"] = container
+        run.count(site + ".container", container)
     r = L.impl_call(lambda: getattr(td, name)(**kw))
+    if r[0] == "ok" and container == "tensorclass":
+        from tensordict import is_tensorclass
+        if is_tensorclass(r[1]):
+            r = (r[0], r[1]._tensordict) + tuple(r[2:])
     if r[0] == "err":
         impl = ["err", r[1]]
     elif not hasattr(r[1], "batch_size"):
@@ -943,7 +952,7 @@ def run_reduction_case(ctx, name, batch, names, spelling, keep):
         if not con and impl[2][1] is not None:
             pass
     # nested batch sizes and nested dim names (= the root's) are part of the comparison
-    run.corr("reduction", case, impl, model)
+    run.corr(site, case, impl, model)
     # ---- oracle: torch on every leaf over the batch dims named by the user, batch size = what torch does to the batch shape
     exp = None
     nd = len(batch)
@@ -990,21 +999,21 @@ def run_reduction_case(ctx, name, batch, names, spelling, keep):
         exp = None
     fp = f"{name}:dim={dim_sx if isinstance(dim_sx, str) else dim_sx[0]}:keepdim={keep}:names={'y' if names else 'n'}"
     if exp is None:
-        run.count("reduction.oracle_skipped", str(dim_sx if isinstance(dim_sx, str) else dim_sx[0]))
+        run.count(site + ".oracle_skipped", str(dim_sx if isinstance(dim_sx, str) else dim_sx[0]))
     elif exp[0] == "raise":
-        run.oracle_ok("reduction") if impl[0] == "err" else run.oracle_fail("reduction", case, "an invalid dim was accepted", fp + ":no-raise")
+        run.oracle_ok(site) if impl[0] == "err" else run.oracle_fail(site, case, "an invalid dim was accepted", fp + ":no-raise")
     elif impl[0] != "ok":
-        run.oracle_fail("reduction", case, f"raised {r[2] if r[0] == 'err' else impl} where torch reduces every leaf", fp + ":raises")
+        run.oracle_fail(site, case, f"raised {r[2] if r[0] == 'err' else impl} where torch reduces every leaf", fp + ":raises")
     else:
         want_leaves = L.canon_kv(exp[1])
         coherent = all(list(v.shape[:len(r[1].batch_size)]) == list(r[1].batch_size) for v in leaf_dict(r[1]).values())
         names_ok = (not r[1]._has_names()) or len(r[1].names) == len(r[1].batch_size)
         if impl[3] != want_leaves:
-            run.oracle_fail("reduction", case, "leaf values differ from the torch reduction over the batch dims", fp + ":values")
+            run.oracle_fail(site, case, "leaf values differ from the torch reduction over the batch dims", fp + ":values")
         elif impl[1][1:] != exp[2] or not coherent:
-            run.oracle_fail("reduction", case, f"batch size {impl[1][1:]} (expected {exp[2]}) does not describe the reduced leaves", fp + ":batch")
+            run.oracle_fail(site, case, f"batch size {impl[1][1:]} (expected {exp[2]}) does not describe the reduced leaves", fp + ":batch")
         elif not names_ok:
-            run.oracle_fail("reduction", case, f"{len(r[1].names)} names for {len(r[1].batch_size)} batch dims", fp + ":names")
+            run.oracle_fail(site, case, f"{len(r[1].names)} names for {len(r[1].batch_size)} batch dims", fp + ":names")
         else:
             # the nested tensordicts of the result carry the root's dim names (their batch dims are the root's)
             from tensordict import TensorDictBase
@@ -1012,10 +1021,10 @@ def run_reduction_case(ctx, name, batch, names, spelling, keep):
             bad_nested = [k for k, v in r[1].items(True, is_leaf=lambda cls: False) if isinstance(v, TensorDictBase)
                           and (list(v.names) if v._has_names() else [None] * len(v.batch_size))[:len(root_names)] != root_names]
             if bad_nested:
-                run.oracle_fail("reduction", case, f"nested result {bad_nested[0]} has dim names {r[1].get(bad_nested[0]).names} under a root named {root_names}",
+                run.oracle_fail(site, case, f"nested result {bad_nested[0]} has dim names {r[1].get(bad_nested[0]).names} under a root named {root_names}",
                                 fp + ":nested-names")
             else:
-                run.oracle_ok("reduction")
+                run.oracle_ok(site)
     return case, impl, model
 
 
@@ -1918,6 +1927,17 @@ def stream_binary_containers(ctx: Ctx):
         for name in TERN:
             for _ in range(ctx.n(10, 60)):
                 run_ternary_case(ctx, name, rng.random() < 0.4, container=kind)
+        # reduction front-ends (batch size, names, nested names, what torch is asked for every leaf)
+        import tensordict.base as B
+        for name, (tok, con, fb, rkind, accepts_keep) in RED.items():
+            if not hasattr(B.TensorDictBase, name):
+                continue
+            for _ in range(ctx.n(6, 40)):
+                batch = rng.choice(RED_BATCHES)
+                sp = rng.choice(dim_spellings(len(batch), tok))
+                keep = rng.choice(("nodef", True, False) if accepts_keep else ("nodef",))
+                names = rng.choice((None, NAMES[:len(batch)])) if len(batch) else None
+                run_reduction_case(ctx, name, batch, names, sp, keep, container=kind)
         # the comparison operators (`_td.py`) with the same containers as self
         for name in L.COMPARE + L.BITWISE_CMP_STYLE:
             for _ in range(ctx.n(8, 60)):
